@@ -228,4 +228,21 @@ CHECKS = {
         assumptions=["the scripted conn delivers a datagram only when the receive loop is blocked in ReadFrom, as a socket does"],
         exhaustive_note="the whole configuration grid is enumerated on every run",
     ),
+    "C11": dict(
+        title="Client calls always complete: timeout, cancellation, Close and cleanup",
+        stages=[dict(name="grid", shards={"quick": 8, "thorough": 16}, timeout={"quick": 900, "thorough": 3600}),
+                dict(name="stress", run="TestStress", race=True, shards={"quick": 8, "thorough": 16}, timeout={"quick": 900, "thorough": 5400})],
+        race_is_violation=True,
+        rule="(grid, virtual time) both clients x T in {1ms,7ms,100ms,5s} x tries 1..5 x traffic {silence; acceptable response at instant ta; same-xid datagrams the matcher rejects every T/7, T/2, T-1ns for 3x the retry "
+             "budget; burst of bufferCap+3 rejected datagrams at ta; mixture of rejected/wrong-xid/undecodable/empty datagrams; rejected stream + acceptable response} x event {none; ctx cancel, ctx deadline, Close, Close twice at "
+             "instant tc} with ta, tc on {1ns, T/3, T-1ns, T+1ns, 2.5T, budget-1ns, budget+T} (quick: a deterministic third of the traffic x event products). "
+             "(stress, real time, -race) histories of 8 caller goroutines + a feeder + Close racing them, jitter at conn and cancel.gap hook points. Shape = scenario tuple with instants classed {try0, later, after} / order hash of the history.",
+        technique="virtual-time execution (testing/synctest) of the real clients with exact return-instant oracle and bubble-exit goroutine check; real-time -race stress histories with completion/leak checker",
+        level_text="Grid: the call returns exactly at min(arrival of an acceptable response, context end, Close, T*(2^n-1)) with the matching result (response / ctx.Err() / no-response error), never later; an immediate "
+                   "second call with the same transaction id is not refused; Close and a second Close return nil; the synctest bubble only exits when every client goroutine has finished (a deadlock is reported). "
+                   "Stress: every call returns, errors are from the allowed set, no (nil, nil), no client goroutine survives Close, zero race reports.",
+        level_note="Liveness is decided as bounded progress: exact bounds under virtual time; in real time a 20 s watchdog after Close (a stuck client goroutine then is a violation with the goroutine dump as witness).",
+        assumptions=["events are never scheduled on the same virtual instant as a try boundary (offsets of +-1ns are used instead)", "a call started on an already closed client may fail with the conn's closed error"],
+        exhaustive_note="thorough tier enumerates the whole grid",
+    ),
 }
